@@ -635,6 +635,9 @@ func runFF(o *Opts) *Summary {
 				n = 7
 			}
 		}
+		if o.Arg == "window" {
+			n = 7
+		}
 		w2 := NewWorld(o.Seed*1000+int64(t), n+3) // 3 strangers outside every validator set
 		if w == nil {
 			w2.OpenTrace(o.Out)
@@ -979,15 +982,18 @@ func runFFSingle(w *World, o *Opts, tams []ffTamper) (adoptedValid, refused, for
 }
 
 // runFFWindow: resets inside the activation window of a membership change.
-// Four validators; validator 4 goes quiet; a join is submitted and committed;
-// before it takes effect (six rounds later) nodes 3 and 2 are sent back to
-// CatchingUp and reset themselves from a peer's anchor, whose frame carries the
-// pending peer-set; then everybody but the quiet validator keeps gossiping.
+// Seven validators; validator 7 goes quiet; a join is submitted and committed;
+// around the time it takes effect (six rounds later) nodes 3 and 2, after having
+// fallen behind, are sent to CatchingUp and reset themselves from a peer's anchor,
+// whose frame carries the peer-set history; then everybody but the quiet validator
+// keeps gossiping.
 func runFFWindow(w *World, o *Opts) (adopted int) {
-	n := 4
+	// (seven validators, one of them quiet: five others keep a super-majority while
+	// the node that is going to reset falls behind)
+	n := 7
 	vn := NewVNet(w)
 	defer vn.Close()
-	gen := []int{1, 2, 3, 4}
+	gen := []int{1, 2, 3, 4, 5, 6, 7}
 	for _, k := range gen {
 		nd := vn.NewNode(w.parts[k-1], gen, gen, NodeOpts{Store: "inmem", Cache: o.Cache, SyncLimit: 40, FastSync: true})
 		nd.node.Init()
@@ -1017,7 +1023,7 @@ func runFFWindow(w *World, o *Opts) (adopted int) {
 		}
 	}
 	gossip(o.Steps/3, all, nil)
-	active := all[:3] // validator 4 is quiet from here on
+	active := all[:6] // validator 7 is quiet from here on
 	w.itxSeen = map[string]bool{}
 	jp := w.parts[n] // the first spare participant joins
 	j := vn.NewNode(jp, gen, []int{1}, NodeOpts{Store: "inmem", Cache: o.Cache, SyncLimit: 40})
@@ -1043,9 +1049,49 @@ func runFFWindow(w *World, o *Opts) (adopted int) {
 		if prev != "Babbling" {
 			continue
 		}
+		// babble only fast-forwards a node that is behind: a node that reset below its
+		// own tip would forget events the others hold and sign other events at the same
+		// heights.  So everybody pulls g's events, then the others go on without g
+		// until every possible server's anchor has received g's last event.
+		others := []*NNode{}
+		for _, p := range active {
+			if p != g {
+				others = append(others, p)
+				vn.Pull(p, g, true)
+			}
+		}
+		if j.State() == "Babbling" {
+			// (once the join is effective the set has eight members: the joiner is
+			// needed for a super-majority without g and the quiet validator)
+			others = append(others, j)
+		}
+		good := map[int]bool{} // servers whose anchor has received g's last event
+		for k := 0; k < 150 && len(good) < 2; k++ {
+			gossip(1, others, nil)
+			good = map[int]bool{}
+			for _, p := range others {
+				hgr := p.core.Hg()
+				if hgr.AnchorBlock == nil {
+					continue
+				}
+				blk, err := hgr.Store.GetBlock(*hgr.AnchorBlock)
+				rr, err2 := hgr.VRoundReceived(g.core.Head())
+				if err == nil && err2 == nil && rr >= 0 && rr <= blk.RoundReceived() {
+					good[p.num] = true
+				}
+			}
+		}
+		if len(good) == 0 {
+			continue
+		}
 		g.node.VTransition(_state.CatchingUp)
 		w.Emit(g.num, "StateChange", map[string]interface{}{"from": prev, "to": "CatchingUp", "why": "driver"}, nil)
-		vn.down[4] = true // the quiet validator does not serve either
+		vn.down[7] = true // the quiet validator does not serve either
+		for _, p := range others {
+			if !good[p.num] {
+				vn.down[p.num] = true // (its anchor lies below g's own tip)
+			}
+		}
 		vn.down[j.num] = true
 		if vn.tryFF(g, "none", nil, trusted) {
 			adopted++
